@@ -117,7 +117,10 @@ def run(ctx):
                   "sec": {"k": "num", "n": 1, "d": "-"}, "uid": 1},
                  {"twp": {"k": "num", "n": 1, "d": "n"}, "rge": {"k": "num", "n": 1, "d": "w"},
                   "sec": {"k": "num", "n": 1, "d": "-"}, "uid": 2}]
-            cases.append(mk_case("x%d%s" % (i, cont[:2]), e, [], ctx.rng, container=cont, legal=False, keytext=k))
+            # (a key is rejected whatever the list holds: also an empty list and a single element)
+            for size in (2, 1, 0):
+                cases.append(mk_case("x%d%s%d" % (i, cont[:2], size), e[:size], [], ctx.rng, container=cont, legal=False,
+                                     keytext=k))
     check(ctx, cases)
     # code -> spec beyond the bound: longer lists, real numbers, up to 3 keys
     legal_keys = [{"var": v, "method": m, "rev": r} for v, ms in
@@ -137,7 +140,7 @@ def run(ctx):
         rnd.append(mk_case("r%d" % n, elems, keys, ctx.rng))
     check(ctx, rnd)
     ctx.rule = ("(list, key string) cases = terminal states of spec/SortSpec.tla (lists up to %d over valid/error/undefined "
-                "components, 1 key incl. .rev) + 15 illegal keys x 3 containers + seeded random lists of 2..8 elements "
+                "components, 1 key incl. .rev) + 15 illegal keys x 3 containers x lists of 0, 1 and 2 elements + seeded random lists of 2..8 elements "
                 "(numbers up to 160, ~25%% invalid components, shuffled creation order) with 1..3 keys; built as real "
                 "Tract/TRS objects in TractList/TRSList/PLSSDesc; non-trivial = distinct (container, key, list) with >= 2 "
                 "elements" % cfg_e["MaxLen"])
